@@ -584,6 +584,68 @@ fn detect_fp(del: Delivery, doc_name: &str, auto: &ReadOut, taken_for: Option<&s
     }
 }
 
+/// Foreign BGZF layouts of a written BGZF file (same uncompressed stream, other member
+/// boundaries; built with the harness' own block maker): what other tools produce when they flush
+/// or concatenate. Index 0 = the file as written.
+const LAYOUTS: [&str; 15] = [
+    "as-written", "leading-empty", "first-1-byte", "first-2-bytes", "first-3-bytes", "empty-after-first",
+    "split-at-4", "split-at-5", "split-at-6", "split-at-7", "split-at-8", "eight-1-byte-members",
+    "leading-empty+first-1-byte", "two-leading-empty", "first-3-bytes+empty",
+];
+
+fn relayout(bytes: &[u8], layout: usize) -> Option<Vec<u8>> {
+    let members = ob::walk(bytes).ok()?;
+    let mut payload = Vec::new();
+    for m in &members {
+        payload.extend_from_slice(&m.data);
+    }
+    let cut = |k: usize| k.min(payload.len());
+    let mut blocks: Vec<Vec<u8>> = Vec::new();
+    let mut rest_from = 0usize;
+    let push = |blocks: &mut Vec<Vec<u8>>, a: usize, b: usize| blocks.push(payload[cut(a)..cut(b)].to_vec());
+    match layout {
+        1 => blocks.push(vec![]),
+        2 | 3 | 4 => {
+            push(&mut blocks, 0, layout - 1);
+            rest_from = layout - 1;
+        }
+        5 => {
+            push(&mut blocks, 0, 4);
+            blocks.push(vec![]);
+            rest_from = 4;
+        }
+        6..=10 => {
+            push(&mut blocks, 0, layout - 2);
+            rest_from = layout - 2;
+        }
+        11 => {
+            for i in 0..8 {
+                push(&mut blocks, i, i + 1);
+            }
+            rest_from = 8;
+        }
+        12 => {
+            blocks.push(vec![]);
+            push(&mut blocks, 0, 1);
+            rest_from = 1;
+        }
+        13 => {
+            blocks.push(vec![]);
+            blocks.push(vec![]);
+        }
+        14 => {
+            push(&mut blocks, 0, 3);
+            blocks.push(vec![]);
+            rest_from = 3;
+        }
+        _ => return None,
+    }
+    for c in payload[cut(rest_from)..].chunks(60000) {
+        blocks.push(c.to_vec());
+    }
+    Some(ob::make_file(&blocks, true, 6).0)
+}
+
 fn aln_detect(ch: &Chooser, dels: &[Delivery]) -> Outcome {
     // the *requested* setting is enumerated so that every writer path produces files; verdicts
     // are keyed by what the file actually is (the labelling is `alignment_container`'s subject)
@@ -601,21 +663,46 @@ fn aln_detect(ch: &Chooser, dels: &[Delivery]) -> Outcome {
         ch.obs("unclassifiable (judged by alignment_container)");
         return Ok(());
     };
+    let layout = ch.free("bgzf-layout", LAYOUTS.len());
+    if layout > 0 && del != Delivery::Slice {
+        // Foreign layouts are judged on the whole slice only: under a short first read they add
+        // nothing but further shapes of D21 (a window that ends on a member boundary before 4
+        // bytes were inflated: `written=bam layout=* delivery=short-first-read-18+ symptom=taken-for-sam.gz`).
+        ch.obs("foreign layout x short delivery: D21's subject");
+        return Ok(());
+    }
+    let bytes = if layout == 0 {
+        bytes
+    } else {
+        match (set.cm, relayout(&bytes, layout)) {
+            (Some(_), Some(b)) => b,
+            _ => {
+                ch.obs("no BGZF layer: layout not applicable");
+                return Ok(());
+            }
+        }
+    };
     let fold = set.fmt == AFmt::Cram;
     let bytes = Arc::new(bytes);
     let decoded = |what: &str| {
         format!(
-            "bytes = document `{}` ({} records; gdocs::aln::docs()) written by alignment::io::writer::Builder as {} (file is {}, {} bytes); {what}; source = {}",
-            doc.name, doc.records.len(), req.name, set.name, bytes.len(), del.code()
+            "bytes = document `{}` ({} records; gdocs::aln::docs()) written by alignment::io::writer::Builder as {} (file is {}, {} bytes, BGZF layout {}: same uncompressed stream re-blocked by vmc::oracle::bgzf::make_file); {what}; source = {}",
+            doc.name, doc.records.len(), req.name, set.name, bytes.len(), LAYOUTS[layout], del.code()
         )
     };
     ch.desc(|| decoded("hint-free alignment::io::reader::Builder::default().build_from_reader(source)"));
-    let fp = |stage: &str, rest: String| format!("family=alignment stage={stage} written={} {rest}", set.name);
+    let lay = if layout == 0 { String::new() } else { format!(" layout={}", LAYOUTS[layout]) };
+    let fp = |stage: &str, rest: String| format!("family=alignment stage={stage} written={}{lay} {rest}", set.name);
     let cap = bytes.len() + 1000;
     let expected = aln::doc_log(doc, fold);
 
     // (F) forced to the written setting, same delivery
     let forced = read_aln(source(&bytes, del), Some(set), fold, cap);
+    if layout > 0 && forced != ReadOut::Ok(expected.clone()) {
+        ch.obs(format!("forced reader rejects layout {}", LAYOUTS[layout]));
+        ch.tag(intern(format!("forced reader does not read foreign layout {} (recorded, not judged)", LAYOUTS[layout])));
+        return Ok(());
+    }
     if forced != ReadOut::Ok(expected.clone()) {
         return Err(Violation::new(
             fp("forced-read", format!("delivery={} doc={} symptom={}", del.class(), doc_class(doc.name), content_symptom(&expected, &forced))),
@@ -681,20 +768,45 @@ fn var_detect(ch: &Chooser, dels: &[Delivery]) -> Outcome {
         ch.obs("unclassifiable (judged by variant_container)");
         return Ok(());
     };
+    let layout = ch.free("bgzf-layout", LAYOUTS.len());
+    if layout > 0 && del != Delivery::Slice {
+        // Foreign layouts are judged on the whole slice only: under a short first read they add
+        // nothing but further shapes of D21 (a window that ends on a member boundary before 4
+        // bytes were inflated: `written=bam layout=* delivery=short-first-read-18+ symptom=taken-for-sam.gz`).
+        ch.obs("foreign layout x short delivery: D21's subject");
+        return Ok(());
+    }
+    let bytes = if layout == 0 {
+        bytes
+    } else {
+        match (set.cm, relayout(&bytes, layout)) {
+            (Some(_), Some(b)) => b,
+            _ => {
+                ch.obs("no BGZF layer: layout not applicable");
+                return Ok(());
+            }
+        }
+    };
     let bytes = Arc::new(bytes);
     let decoded = |what: &str| {
         format!(
-            "bytes = document `{}` ({} records; gdocs::var::docs()) written by variant::io::writer::Builder as {} (file is {}, {} bytes); {what}; source = {}",
-            doc.name, doc.records.len(), req.name, set.name, bytes.len(), del.code()
+            "bytes = document `{}` ({} records; gdocs::var::docs()) written by variant::io::writer::Builder as {} (file is {}, {} bytes, BGZF layout {}: same uncompressed stream re-blocked by vmc::oracle::bgzf::make_file); {what}; source = {}",
+            doc.name, doc.records.len(), req.name, set.name, bytes.len(), LAYOUTS[layout], del.code()
         )
     };
     ch.desc(|| decoded("hint-free variant::io::reader::Builder::default().build_from_reader(source)"));
-    let fp = |stage: &str, rest: String| format!("family=variant stage={stage} written={} {rest}", set.name);
+    let lay = if layout == 0 { String::new() } else { format!(" layout={}", LAYOUTS[layout]) };
+    let fp = |stage: &str, rest: String| format!("family=variant stage={stage} written={}{lay} {rest}", set.name);
     let cap = bytes.len() + 1000;
     let expected = var::doc_log(doc);
 
     // (F)
     let forced = read_var(source(&bytes, del), Some(set), cap);
+    if layout > 0 && forced != ReadOut::Ok(expected.clone()) {
+        ch.obs(format!("forced reader rejects layout {}", LAYOUTS[layout]));
+        ch.tag(intern(format!("forced reader does not read foreign layout {} (recorded, not judged)", LAYOUTS[layout])));
+        return Ok(());
+    }
     if forced != ReadOut::Ok(expected.clone()) {
         return Err(Violation::new(
             fp("forced-read", format!("delivery={} doc={} symptom={}", del.class(), doc_class(doc.name), content_symptom(&expected, &forced))),
